@@ -29,6 +29,7 @@ enum Op {
   Attach(usize, usize),
   Detach(usize, usize),
   AttachFrag(usize, usize), // attach by fragment-only query
+  Dangling(usize, usize),   // (prefix only) a reference to id i in relationship r whose target is not in the document
   InsertService(usize),
   RemoveService(usize),
 }
@@ -44,7 +45,9 @@ fn apply_model(m: &mut Model, op: Op) -> bool {
   match op {
     Op::InsertMethod(i, sc) => {
       let s = id(i);
-      if any_method(m, &s) || m.svc.contains(&s) || m.rel.iter().any(|r| r.iter().any(|(x, _)| x == &s)) {
+      // a general-purpose method may take an id that is so far only referenced (the references then point at it); an embedded
+      // method may not (a reference would alias it)
+      if any_method(m, &s) || m.svc.contains(&s) || (sc != 0 && m.rel.iter().any(|r| r.iter().any(|(x, _)| x == &s))) {
         return false;
       }
       if sc == 0 {
@@ -101,6 +104,10 @@ fn apply_model(m: &mut Model, op: Op) -> bool {
       }
       true
     }
+    Op::Dangling(i, r) => {
+      m.rel[r].push((id(i), false));
+      true
+    }
     Op::Detach(i, r) => {
       let s = id(i);
       if !m.gm.contains(&s) {
@@ -147,6 +154,26 @@ fn apply_doc(d: &mut CoreDocument, op: Op) -> bool {
     Op::Attach(i, r) => d.attach_method_relationship(&url(i), RELS[r]).is_ok(),
     Op::Detach(i, r) => d.detach_method_relationship(&url(i), RELS[r]).is_ok(),
     Op::AttachFrag(i, r) => d.attach_method_relationship(format!("#{}", url(i).fragment().unwrap()).as_str(), RELS[r]).is_ok(),
+    Op::Dangling(i, r) => {
+      // documents with references into other documents (or to methods that are not there) are accepted by the constructor
+      // gate; they can only be built through JSON
+      let mut v: serde_json::Value = serde_json::from_str(&d.to_json().unwrap()).unwrap();
+      let key = ["authentication", "assertionMethod", "keyAgreement", "capabilityDelegation", "capabilityInvocation"][r];
+      let entry = serde_json::Value::String(ids()[i].clone());
+      match v.get_mut(key).and_then(|x| x.as_array_mut()) {
+        Some(a) => a.push(entry),
+        None => {
+          v[key] = serde_json::Value::Array(vec![entry]);
+        }
+      }
+      match CoreDocument::from_json(&v.to_string()) {
+        Ok(nd) => {
+          *d = nd;
+          true
+        }
+        Err(_) => false,
+      }
+    }
     Op::InsertService(i) => d
       .insert_service(Service::builder(Object::new()).id(url(i)).type_("T").service_endpoint(Url::parse("https://example.com/").unwrap()).build().unwrap())
       .is_ok(),
@@ -172,6 +199,7 @@ fn tag(op: Op) -> &'static str {
     Op::Attach(..) => "[attach]",
     Op::Detach(..) => "[detach]",
     Op::AttachFrag(..) => "[attach]",
+    Op::Dangling(..) => "[dangling]",
     Op::InsertService(..) => "[insert-service]",
     Op::RemoveService(..) => "[remove-service]",
   }
@@ -196,6 +224,9 @@ pub fn document_ops(cex: &Value) -> Result<String, String> {
     universes.push((3, 5, 1, vec![Op::InsertMethod(0, 0), Op::InsertMethod(2, 1)]));
     universes.push((3, 5, 1, vec![Op::InsertMethod(2, 0), Op::InsertMethod(0, 1)]));
     universes.push((3, 5, 1, vec![Op::InsertMethod(2, 2), Op::InsertMethod(0, 0)]));
+    // a reference whose target is not in the document (legal: it may live in another document), then every insertion
+    universes.push((2, 5, 2, vec![Op::Dangling(0, 0)]));
+    universes.push((2, 5, 1, vec![Op::Dangling(0, 2), Op::Dangling(1, 4)]));
     for (n_ids, n_rels, depth, prefix) in universes {
     let mut ops = Vec::new();
     for i in 0..n_ids {
@@ -212,6 +243,9 @@ pub fn document_ops(cex: &Value) -> Result<String, String> {
       }
       ops.push(Op::InsertService(i));
       ops.push(Op::RemoveService(i));
+    }
+    if matches!(prefix.first(), Some(Op::Dangling(..))) {
+      ops.retain(|o| matches!(o, Op::InsertMethod(..) | Op::InsertService(..)));
     }
     let did = CoreDID::parse("did:example:doc").unwrap();
     let empty = CoreDocument::builder(Object::new()).id(did).build().unwrap();
